@@ -48,6 +48,13 @@ struct Case {
     /// non-zero: probe the manifest-lock discipline with extra, seeded releases
     #[serde(default)]
     probe_seed: u64,
+    /// non-zero: ignore `schedule` and release a seeded random parked actor at every step (at most
+    /// `random_steps` steps, then everything runs to completion); the compactor's timer is one of the
+    /// choices.  Only the outcomes are judged (Serial.tla), not the path.
+    #[serde(default)]
+    random_seed: u64,
+    #[serde(default)]
+    random_steps: usize,
 }
 
 const GATES: &[&str] = &[
@@ -446,7 +453,33 @@ async fn run_case(case: &Case, rec: Arc<Rec>) -> Value {
     // ---- the schedule
     let mut probes = 0usize;
     let mut lcg: u64 = case.probe_seed.wrapping_mul(6364136223846793005).wrapping_add(1442695040888963407);
+    if case.random_seed != 0 {
+        let mut r: u64 = case.random_seed.wrapping_mul(6364136223846793005).wrapping_add(1442695040888963407);
+        for _ in 0..case.random_steps {
+            settle(&mut ctl, false).await;
+            r = r.wrapping_mul(6364136223846793005).wrapping_add(1442695040888963407);
+            let n = ctl.parked.len();
+            if n == 0 && handles.iter().all(|h| h.is_finished()) {
+                break;
+            }
+            // one extra choice: let (virtual) time pass, which wakes the compactor when it sleeps
+            let k = ((r >> 33) as usize) % (n + 1);
+            if k == n {
+                if !ctl.is_parked("compactor") {
+                    tokio::time::sleep(Duration::from_millis(1001)).await;
+                    log.push(json!(["tick", "timer", Value::Null]));
+                }
+                continue;
+            }
+            let p = ctl.parked.remove(k);
+            log.push(json!(["random", p.actor, p.label]));
+            let _ = p.tx.send(());
+        }
+    }
     for (i, step) in case.schedule.iter().enumerate() {
+        if case.random_seed != 0 {
+            break;
+        }
         let a = step["a"].as_str().unwrap_or("");
         // Negative probe: while somebody is between "snapshot applied" and "published" (it holds
         // the manifest lock), let another actor that wants to commit run.  The specification says
@@ -465,6 +498,27 @@ async fn run_case(case: &Case, rec: Arc<Rec>) -> Value {
                         log.push(json!(["probe", actor, label]));
                         settle(&mut ctl, false).await;
                     }
+                }
+            }
+        }
+        // Negative probe of the table lock: while the compactor is inside a table visit (it holds that
+        // table's lock from `compactor.pinned` to the end of the visit), let a DELETE that waits in front
+        // of its table lock run.  The specification says it must wait (same table) or may proceed (other
+        // table); either way the outcomes must stay explainable by a serial order.
+        if case.probe_seed != 0 {
+            lcg = lcg.wrapping_mul(6364136223846793005).wrapping_add(1442695040888963407);
+            let visiting = ctl.parked.iter().any(|p| {
+                Controller::root(&p.actor) == "compactor"
+                    && matches!(
+                        p.label,
+                        "compactor.pinned" | "compactor.selected" | "compactor.read" | "compactor.before_commit"
+                    )
+            });
+            if visiting && (lcg >> 35) % 2 == 0 {
+                if let Some((actor, label)) = ctl.release_where(|p| p.label == "txn.before_lock") {
+                    probes += 1;
+                    log.push(json!(["probe", actor, label]));
+                    settle(&mut ctl, false).await;
                 }
             }
         }
